@@ -32,6 +32,7 @@ CONSTANTS MaxList,     \* longest transaction / receipt list
           Leaves,      \* distinct list elements (strings)
           MaxEv,       \* most events per receipt in the layout part
           MaxRcpt,     \* most receipts per stored container in the layout part
+          CodecStatuses, \* receipt statuses in the layout part (the status byte itself is covered by the mutation part)
           CumLens,     \* lengths of Receipt.CumulativeFeeUsed ({0}: what the node produces - nothing ever sets the field)
           NameChars,   \* alphabet of ChainID.Magic / Consensus; 0 stands for the separator '/'
           MaxName      \* longest Magic / Consensus
@@ -148,7 +149,7 @@ Root(l) == IF Len(l) = 0 THEN Zero ELSE Collapse(Level0(l))
 Lists == UNION {[1..n -> Leaves] : n \in 0..MaxList}
 BloomLeaf == "BLOOM"                                   \* the block bloom filter is appended as the last entry
 Entries(l, bloom) == IF bloom THEN Append(l, BloomLeaf) ELSE l
-RootTab == [b \in BOOLEAN |-> [l \in Lists |-> Root(Entries(l, b))]]
+RootTab == [b \in BOOLEAN |-> [l \in Lists |-> Root(Entries(l, b))]]        \* (tables: evaluated once)
 
 \* the full leaf row the padding rule makes of a list (what the root really commits to)
 RECURSIVE ExpandTo(_, _)
@@ -159,6 +160,8 @@ ExpandTo(l, w) ==      \* w: block width of the current level (1, 2, 4 ...); Len
        IN ExpandTo(l2, 2 * w)
 Expand(l) == ExpandTo(l, 1)
 Injective(l) == \A i, j \in DOMAIN l : l[i] = l[j] => i = j
+ExpandTab == [b \in BOOLEAN |-> [l \in Lists |-> Expand(Entries(l, b))]]
+InjectiveLists == {l \in Lists : Injective(l)}
 
 \* ======================================================================== 3. layout of the persistence formats (cells)
 At(d, p)     == IF p \in 1..Len(d) THEN d[p] ELSE 0 - 1
@@ -176,7 +179,7 @@ EventsOf == [addr : Addrs, name : Strs({0, 1}), args : Strs({1}), idx : {0, 1}]
 RECURSIVE SeqsUpTo(_, _)
 SeqsUpTo(S, n) == IF n = 0 THEN {<<>>} ELSE LET T == SeqsUpTo(S, n - 1) IN T \cup {Append(t, x) : t \in {u \in T : Len(u) = n - 1}, x \in S}
 ReceiptsOf(fmt, maxev) ==
-  [addr : Addrs, status : Statuses, ret : Strs({0, 1}), txh : {9}, fee : Strs({0, 1}), cum : Strs(CumLens),
+  [addr : Addrs, status : CodecStatuses, ret : Strs({0, 1}), txh : {9}, fee : Strs({0, 1}), cum : Strs(CumLens),
    gas : IF fmt = "v2" THEN {5} ELSE {0}, fd : IF fmt = "v2" THEN BOOLEAN ELSE {FALSE},
    bloom : {<<>>, <<8>>}, events : SeqsUpTo(EventsOf, maxev)]
 \* the containers examined (a configuration may substitute a different family)
@@ -278,6 +281,7 @@ DecCid(d) ==
           IN [ok |-> TRUE, c |-> [ver |-> d[1], pub |-> d[2] = 1, main |-> d[3] = 1,
                                   magic |-> SubSeq(t, 1, s - 1), cons |-> SubSeq(t, s + 1, Len(t))]]
 CidRoundTripOk(c) == DecCid(EncCid(c)) = [ok |-> TRUE, c |-> c]
+CidTab == [c \in ChainIds |-> EncCid(c)]
 \* types.MakeChainId: the version prefix replaced, everything else kept
 MakeChainId(d, v) == [d EXCEPT ![1] = v]
 EqualWithoutVersion(a, b) == Len(a) >= 1 /\ Len(b) >= 1 /\ SubSeq(a, 2, Len(a)) = SubSeq(b, 2, Len(b))
@@ -360,10 +364,10 @@ StoreCoversCommitment ==
 PadEquivalent(l, m) == Expand(l) = Expand(m)
 RootCollisionsArePadOnly ==
   cur.part = "list" => \A m \in Lists : (RootTab[cur.bloom][m] = RootTab[cur.bloom][cur.list])
-                                          <=> PadEquivalent(Entries(m, cur.bloom), Entries(cur.list, cur.bloom))
+                                          <=> (ExpandTab[cur.bloom][m] = ExpandTab[cur.bloom][cur.list])
 DistinctElementsBind ==
-  cur.part = "list" => \A m \in Lists : \A b \in BOOLEAN :
-      (Injective(m) /\ Injective(cur.list) /\ RootTab[b][m] = RootTab[cur.bloom][cur.list]) => (m = cur.list /\ b = cur.bloom)
+  (cur.part = "list" /\ cur.list \in InjectiveLists) => \A m \in InjectiveLists : \A b \in BOOLEAN :
+      RootTab[b][m] = RootTab[cur.bloom][cur.list] => (m = cur.list /\ b = cur.bloom)
 BloomListsBind ==
   (cur.part = "list" /\ cur.bloom) => \A m \in Lists : \A b \in BOOLEAN :
       RootTab[b][m] = RootTab[TRUE][cur.list] => (m = cur.list /\ b)
@@ -374,7 +378,7 @@ ListBinding ==
 \* (c) what is read back is what was written
 ReceiptsRoundTrip == cur.part = "codec" => RoundTripOk(cur.rs, cur.fmt, cur.bloom)
 ChainIdRoundTrip  == cur.part = "cid" => CidRoundTripOk(cur.c)
-ChainIdBinding    == cur.part = "cid" => \A c2 \in ChainIds : EncCid(c2) = EncCid(cur.c) => c2 = cur.c
+ChainIdBinding    == cur.part = "cid" => \A c2 \in ChainIds : CidTab[c2] = CidTab[cur.c] => c2 = cur.c
 MakeChainIdKeepsRest ==
   cur.part = "cid" => \A v \in CidVersions :
       /\ EqualWithoutVersion(MakeChainId(EncCid(cur.c), v), EncCid(cur.c))
